@@ -12,6 +12,35 @@ use crate::{
     RefKey, TypeId, TypeSpace,
 };
 
+thread_local! {
+    static CYCLE_LOG: std::cell::RefCell<Option<Vec<Value>>> = const { std::cell::RefCell::new(None) };
+}
+
+/// One step of `break_cycles` (recorded only while a log is installed).
+pub(crate) fn cycle_event(ev: &str, id: u64, skipped: bool, snip: &[TypeId], descend: &[TypeId]) {
+    CYCLE_LOG.with(|l| {
+        if let Some(log) = l.borrow_mut().as_mut() {
+            log.push(json!({
+                "ev": ev,
+                "id": id,
+                "skipped": skipped,
+                "snip": snip.iter().map(|t| t.0).collect::<Vec<_>>(),
+                "descend": descend.iter().map(|t| t.0).collect::<Vec<_>>(),
+            }));
+        }
+    })
+}
+
+/// Start recording the steps of `break_cycles` on this thread (verification only).
+pub fn verif_cycle_log_start() {
+    CYCLE_LOG.with(|l| *l.borrow_mut() = Some(Vec::new()));
+}
+
+/// Stop recording and return the recorded steps (verification only).
+pub fn verif_cycle_log_take() -> Vec<Value> {
+    CYCLE_LOG.with(|l| l.borrow_mut().take().unwrap_or_default())
+}
+
 fn props(props: &[StructProperty], via: &str) -> Vec<Value> {
     props
         .iter()
